@@ -25,6 +25,7 @@ import (
 
 	"github.com/go-stack/stack"
 	"gitlab.com/aquachain/aquachain/common/sense"
+	"gitlab.com/aquachain/aquachain/common/verifhook"
 )
 
 var (
@@ -107,6 +108,7 @@ func Crit(msg string, ctx ...interface{}) {
 		debug.PrintStack()
 		time.Sleep(time.Second)
 	}
+	verifhook.Crit(msg)
 	os.Exit(1)
 }
 
